@@ -93,9 +93,9 @@ INSTANCES.update({
     "scope6": (seq(["root", "setlp", "dropg", "lcstart", "lcdrop", "lenter", "lexit", "ctxl", "childl"], MaxOps=6, MaxSpans=2, MaxScopes=3,
                    MaxLocal=3, MaxCycles=0), "terminal", {}),
     # C11: contexts
-    "ctx4": (seq(["root", "child", "child2", "childm", "mknoop", "setlp", "dropg", "lenter", "lexit", "ctxl", "ctxs", "rootctx", "drop"],
+    "ctx4": (seq(["root", "child", "child2", "child2r", "childm", "mknoop", "setlp", "dropg", "lenter", "lexit", "ctxl", "ctxs", "rootctx", "drop"],
                  MaxOps=4, MaxSpans=3, MaxRoots=2, MaxTraces=2, MaxCycles=0, smp=[True, False]), "terminal", {}),
-    "ctx5": (seq(["root", "child", "child2", "childm", "mknoop", "setlp", "dropg", "lenter", "lexit", "ctxl", "ctxs", "rootctx", "drop"],
+    "ctx5": (seq(["root", "child", "child2", "child2r", "childm", "mknoop", "setlp", "dropg", "lenter", "lexit", "ctxl", "ctxs", "rootctx", "drop"],
                  MaxOps=5, MaxSpans=3, MaxRoots=2, MaxTraces=2, MaxCycles=0, smp=[True, False]), "terminal", {}),
     # C17: detached local spans
     "lc5": (seq(["root", "lcstart", "lccollect", "lenter", "lexit", "levent", "lprops", "pushc", "drop"], MaxOps=5, MaxSpans=2, MaxRoots=2,
@@ -190,7 +190,7 @@ INSTANCES.update({
     "poll_fut2_c": (pollinst(["fut"], cancelable=True, threads=[1, 2], born=[1, 2], MaxOps=4, inner=["none", "ls"], trackcut=True), "terminal", {}),
     "poll_eop": (pollinst(["eop"], menu=["root", "setlp", "dropg", "fnew", "fpoll", "fdrop", "ctxl", "drop"], MaxScopes=1), "terminal", {}),
     "poll_str_c": (pollinst(["str"], cancelable=True), "terminal", {}),
-    "poll_snk_c": (pollinst(["snk"], cancelable=True, MaxPolls=4), "terminal", {}),
+    "poll_snk_c": (pollinst(["snk"], cancelable=True, MaxPolls=5, menu=["root", "fnew", "fpoll", "fdrop", "ctxl", "drop"], MaxSpans=1, MaxOps=7, MaxCycles=1), "terminal", {}),
     "poll_ss_d": (pollinst(["str", "snk"], MaxOps=4), "terminal", {}),
 })
 
@@ -241,7 +241,7 @@ for _n in ["ctx4", "ctx5", "smp4", "smp5", "tree4", "tree5"]:
 
 # mixed sampled / unsampled parent sets behind a local parent (seeded S09, S10)
 INSTANCES.update({
-    "smp_mixed": (seq(["root", "child2", "setlp", "dropg", "childl", "lenter"], smp=[True, False], MaxOps=5, MaxSpans=4, MaxRoots=2,
+    "smp_mixed": (seq(["root", "child2", "child2r", "setlp", "dropg", "childl", "lenter"], smp=[True, False], MaxOps=5, MaxSpans=4, MaxRoots=2,
                       MaxTraces=2, MaxScopes=1, MaxLocal=1, MaxCycles=0, probe_ctx=True, probe_spans=True), "terminal", {}),
 })
 
@@ -370,4 +370,37 @@ INSTANCES.update({
     "lc_multi_p": (dict(seq(["lenter", "lexit", "levent", "lprops", "lccollect", "pushc"], MaxOps=6, MaxSpans=2, MaxRoots=2, MaxTraces=2, MaxLocal=2,
                             MaxAtt=2, MaxLs=1, MaxScopes=1, MaxCycles=1),
                         prefix=True, prog={1: [S("root", tr=1, smp=True), S("root", tr=2, smp=True), S("lcstart")]}), "terminal", {}),
+})
+
+
+# more local-parent scopes nested than the span stack holds (C09 "when a local scope exceeds its limits"; seeded S72:
+# a refused scope silences the enclosing one)
+INSTANCES.update({
+    "slimit5": (dict(seq(["setlp", "dropg", "lenter", "lexit", "levent", "childl"], SCap=1, MaxOps=5, MaxSpans=2, MaxRoots=1, MaxScopes=3, MaxLocal=2,
+                         MaxAtt=1, MaxCycles=0, distinct_ops=True, probe_ctx=True),
+                     prefix=True, prog={1: [S("root", tr=1, smp=True), S("setlp", h=101)]}), "terminal", {}),
+})
+
+# attachments through the handle of a span whose parents are in a sampled and an unsampled trace (seeded S73: a fast path
+# that asks whether *all* items are sampled)
+INSTANCES.update({
+    "att_mixed": (dict(seq(["sevent", "sprops", "swith", "drop"], MaxOps=4, MaxSpans=3, MaxRoots=2, MaxTraces=2, MaxAtt=3, MaxCycles=1, probe_ctx=True, probe_spans=True),
+                       prefix=True, prog={1: [S("root", tr=1, smp=False), S("root", tr=2, smp=True), S("child", ps=[101, 102])]}), "terminal", {}),
+    "att_mixed_r": (dict(seq(["sevent", "sprops", "swith", "drop"], MaxOps=4, MaxSpans=3, MaxRoots=2, MaxTraces=2, MaxAtt=3, MaxCycles=1, probe_ctx=True, probe_spans=True),
+                         prefix=True, prog={1: [S("root", tr=1, smp=True), S("root", tr=2, smp=False), S("child", ps=[102, 101])]}), "terminal", {}),
+})
+
+# laziness under an unsampled local parent (seeded S75: the closure of LocalSpan::add_property runs although nothing records)
+INSTANCES.update({
+    "lazy_smp": (dict(seq(["lprops", "lwith", "lenter", "lexit", "levent", "sprops", "swith", "sevent", "childl"], MaxOps=3, MaxSpans=2, MaxRoots=1, MaxLocal=1,
+                          MaxAtt=3, MaxScopes=1, MaxCycles=0, distinct_ops=True),
+                      prefix=True, prog={1: [S("root", tr=1, smp=False), S("setlp", h=101)]}), "terminal", {}),
+})
+
+# parents of what is recorded in nested local scopes, five operations below a root that is the local parent
+# (seeded S79, S80: a top-level event resets the parent cursor wrongly; a nested scope of the same span is skipped)
+INSTANCES.update({
+    "scope_deep": (dict(seq(["setlp", "dropg", "lenter", "lexit", "levent", "childl"], MaxOps=5, MaxSpans=3, MaxRoots=1, MaxScopes=3, MaxLocal=2, MaxAtt=2,
+                            MaxCycles=0, probe_ctx=True, probe_spans=True),
+                        prefix=True, prog={1: [S("root", tr=1, smp=True), S("setlp", h=101)]}), "terminal", {}),
 })
